@@ -22,6 +22,7 @@ must be present in tables/panics.json with a class:
 A reachable site that is in no table is reported as a violation ("new panic site").
 """
 import json
+import re
 import os
 
 from vlib import factbase as fb
@@ -614,6 +615,13 @@ def table():
     return _TABLE
 
 
+_SEQ_INDEX = {}
+
+
+def _seq_norm(key):
+    return re.sub(r"<(std::vec::Vec|alloc::vec::Vec|\[[^\]]*\]|&\[[^\]]*\])>", "<seq>", key)
+
+
 def lookup(facts, tab, s):
     """Audited entry of a site: under its own key, under its alternative description (thin accessor not looked through), or under the key it had in
     a recorded helper that has since been inlined into this fn and deleted."""
@@ -623,6 +631,17 @@ def lookup(facts, tab, s):
             ent = tab.get("%s|%s|%s|%d" % (s.fn, s.kind, s.alt, o_))
             if ent is not None:
                 break
+    if ent is None and s.kind == "index":
+        # `&Vec<T>` -> `&[T]` in a private signature changes the container's type name, not the access: same site
+        nk = _seq_norm(s.key)
+        idx = _SEQ_INDEX.get(id(tab))
+        if idx is None:
+            idx = {}
+            for k_, v_ in tab.items():
+                if "|index|" in k_:
+                    idx.setdefault(_seq_norm(k_), v_)
+            _SEQ_INDEX[id(tab)] = idx
+        ent = idx.get(nk)
     if ent is None:
         for m_ in (getattr(facts, "moved_into", None) or {}).get(s.fn, []):
             for o_ in range(0, 4):
